@@ -15,7 +15,7 @@ T_QUICK, T_THOROUGH = 70, 1500
 CLASSES = ["index-get", "index-set", "negative-index", "length", "shape", "int-length", "string-too-long",
            "bigger-items", "non-member", "wrong-context", "offset-no-buffer", "construct-shape", "struct-with-other-length",
            "struct-one-refused-field", "extra-dimensions", "mixed-bad-item", "sequence-for-scalar",
-           "construct-refused-while-writing", "hybrid-array-other-length", "negative-length"]
+           "construct-refused-while-writing", "hybrid-array-other-length", "negative-length", "broadcastable-shape"]
 FLOORS = {"attempts": 20000, "raised": 15000, "state_checks": 20000}
 FLOORS.update({"class:" + c: 300 for c in CLASSES})
 FLOORS["class:struct-with-other-length"] = 80
@@ -209,6 +209,26 @@ def _plan(cls_, rng, c, allnodes, env):
             else:
                 a[key]
         return f"{ar_sig(nt)}", f"{l}[{key}] ({cls_}{', assignment' if setit else ''})", fn
+    if cls_ == "broadcastable-shape":
+        # a NumPy array of ANOTHER shape that numpy broadcasting would stretch to the array's shape (one item for
+        # many, a row or a column for a matrix, a 0-d array): it is a value of another shape all the same
+        from xv.typegen import DT
+        cand = [a for a in owned if a[0] and a[2]["it"]["k"] == "sc" and 0 not in a[3].shape and int(np.prod(a[3].shape)) > 1]
+        if not cand:
+            return None
+        p, l, nt, nv = rng.choice(cand)
+        shape = tuple(nv.shape)
+        opts = [(), (1,) * len(shape)]
+        if len(shape) > 1:
+            opts += [shape[1:], (1,) + shape[1:], shape[:-1] + (1,)]
+        opts = [o for o in opts if tuple(o) != shape]
+        bshape = rng.choice(opts)
+        dt = rng.choice([DT[nt["it"]["t"]], np.dtype("float64"), np.dtype("int64")])
+        newarg = (np.arange(int(np.prod(bshape)) if bshape else 1) + 3).astype(dt).reshape(bshape)
+
+        def fn(base, p=p, newarg=newarg):
+            set_path(base, p, newarg)
+        return f"{_poskind(p)}|{ar_sig(nt)}", f"{l} (shape {list(shape)}) = ndarray of shape {list(bshape)} ({dt})", fn
     if cls_ in ("length", "shape", "int-length"):
         cand = [a for a in owned if a[0]]
         if cls_ == "shape":
